@@ -1,6 +1,1041 @@
-//! C18 — not built yet.
-use crate::rt::*;
+//! C18 — multiparty protocols agree across parties and message orders, keep plaintexts.
+//!
+//! The harness is the network: every protocol object `send`s into a byte buffer and the buffers
+//! are handed to `receive` in the order a HISTORY prescribes (for every round and receiver a
+//! permutation of the n-1 senders). One *run* = create n `Participant`s (same common tape, private
+//! randomness from the thread entropy seed) and drive every protocol once. The run is repeated with
+//! identical seeds under every history; outputs must be identical word for word within a run
+//! (all parties) and across histories. On the first history the outputs are also decided by
+//! reference arithmetic on the parties' actual secrets (recovered with the reference inverse
+//! transform): pk0 + pk1*s = -e, relin-key components c0 + c1*s - P*s^2|_j = noise, exact phases of
+//! every produced ciphertext under the summed / target secret, and the library's ordinary
+//! `Decryptor` under those secrets. A second group enumerates every non-empty set of withheld
+//! messages and demands that `finish` (or `step2`) panics.
 
-pub fn run(_cfg: &Cfg, _rep: &mut Report) -> PropMeta {
-    PropMeta { id: "C18", level: "exploration", rule: "not built", assumptions: vec![], exhaustive: false, floor: 1 }
+use crate::big::{BigI, BigU};
+use crate::he::*;
+use crate::refm;
+use crate::rt::*;
+use heathcliff::multiparty::participant::*;
+use heathcliff::multiparty::utils::{BFVShareSampler, BFVSimdShareEncoder};
+use heathcliff::util::{BlakeRNG, NTTTables, PRNGSeed};
+use heathcliff::*;
+use rand::{RngCore, SeedableRng};
+use serde_json::{json, Value};
+use std::sync::Arc;
+
+const P: &str = "C18";
+/// up to this degree inverse transforms are the O(N^2) reference; above it the library's inverse
+/// NTT is used and cross-checked by Horner evaluation of the result at random transform points
+const REF_MAX: usize = 256;
+const ERR: f64 = 21.0;
+const REFUSE_MSG: &str = "Not all participants have sent their messages";
+
+// ------------------------------------------------------------------------------------------ context of a case
+struct Cx<'a> { cfg: &'a Cfg, grp: &'a str, case: u64, info: Value }
+
+fn viol(cx: &Cx, rep: &mut Report, op: &str, class: &str, kind: &str, detail: String) {
+    rep.violation(&format!("{}|{}|{}|{}", P, op, class, kind), format!("{} ; setup {}", detail, cx.info),
+        replay_json(cx.cfg, cx.grp, cx.case, json!({"op": op, "class": class, "setup": cx.info})));
+}
+
+struct Setup {
+    spec: Spec,
+    ctx: Arc<HeContext>,
+    np: usize,
+    tape: [u8; 64],
+    entropy: u64,
+    n: usize,
+    t: u64,
+    key_qs: Vec<u64>,
+    data_qs: Vec<u64>,
+    has_ks: bool,
+    levels: usize,
+    batch: Option<BatchEncoder>,
+    ckks: Option<CKKSEncoder>,
+    v1: Vec<u64>,
+    m1: Vec<u64>,
+    m2: Vec<u64>,
+    z1: Vec<C64>,
+    z2: Vec<C64>,
+    scale: f64,
+    p1: Plaintext,
+    p2: Plaintext,
+    /// largest data prime / special prime (key-switching noise factor)
+    ratio: f64,
+}
+
+fn short(s: &str) -> String { s.chars().take(110).collect() }
+
+/// parameter set: kd data primes of 50..59 bits + one 60-bit special prime (or, `flat`, no special
+/// prime: every prime is a data prime and key switching is unavailable); batching plain modulus of at most 17 bits
+fn make_setup(rng: &mut Rng, scheme: SchemeType, n: usize, kd: usize, np: usize, flat: bool) -> Result<Setup, String> {
+    let mut bits: Vec<u32> = (0..kd).map(|_| rng.range(50, 59) as u32).collect();
+    if !flat { bits.push(60); }
+    let qs = coeff_primes(n, &bits, rng).ok_or("no primes")?;
+    let logm = (2 * n).trailing_zeros();
+    let t = if scheme == SchemeType::CKKS { 0 } else {
+        let tb0 = rng.range((logm + 2).max(8) as u64, 17) as u32;
+        let skip = rng.usize_below(3);
+        (tb0..=17).chain((logm + 2)..tb0).flat_map(|tb| { let v = ntt_primes(n, tb, 6, skip); if v.is_empty() { ntt_primes(n, tb, 6, 0) } else { v } })
+            .find(|c| !qs.contains(c)).ok_or("no batching prime")?
+    };
+    let spec = Spec { scheme, n, qs: qs.clone(), t, special_flag: flat, expand: true, family: format!("kd{}{}", kd, if flat { "-flat" } else { "+special" }) };
+    let ctx = spec.context()?;
+    let has_ks = ctx.using_keyswitching();
+    if has_ks == flat { return Err("unexpected key-switching availability".into()); }
+    let key_qs: Vec<u64> = ctx.key_context_data().unwrap().parms().coeff_modulus().iter().map(|m| m.value()).collect();
+    let first = ctx.first_context_data().unwrap();
+    let data_qs: Vec<u64> = first.parms().coeff_modulus().iter().map(|m| m.value()).collect();
+    let mut levels = 0; let mut cur = Some(first.clone());
+    while let Some(c) = cur { levels += 1; cur = c.next_context_data(); }
+    let mut tape = [0u8; 64];
+    for i in 0..8 { tape[i * 8..i * 8 + 8].copy_from_slice(&rng.u64().to_le_bytes()); }
+    let entropy = rng.u64();
+    let ratio = if flat { 1.0 } else { *data_qs.iter().max().unwrap() as f64 / *key_qs.last().unwrap() as f64 };
+    let mut su = Setup { spec, ctx: ctx.clone(), np, tape, entropy, n, t, key_qs, data_qs, has_ks, levels, batch: None, ckks: None,
+        v1: vec![], m1: vec![], m2: vec![], z1: vec![], z2: vec![], scale: 1.0, p1: Plaintext::new(), p2: Plaintext::new(), ratio };
+    if scheme == SchemeType::CKKS {
+        let enc = lib(|| CKKSEncoder::new(ctx.clone())).map_err(|p| p.0)?;
+        let lq: f64 = su.data_qs.iter().map(|&q| (q as f64).log2()).sum();
+        let sb = (((lq - (n as f64).log2() - 8.0) / 2.0).floor()).min(50.0);
+        su.scale = 2f64.powi(sb as i32);
+        let class = rng.below(3);
+        let gen = |rng: &mut Rng| -> Vec<C64> { (0..n / 2).map(|_| match class { 0 => C64::new(rng.f64() * 2.0 - 1.0, 0.0), _ => C64::new((rng.f64() * 2.0 - 1.0) * 0.7, (rng.f64() * 2.0 - 1.0) * 0.7) }).collect() };
+        su.z1 = gen(rng); su.z2 = gen(rng);
+        let id = *ctx.first_parms_id();
+        let (z1, z2, sc) = (su.z1.clone(), su.z2.clone(), su.scale);
+        let (p1, p2) = lib(|| (enc.encode_c64_array_new(&z1, Some(id), sc), enc.encode_c64_array_new(&z2, Some(id), sc))).map_err(|p| p.0)?;
+        su.p1 = p1; su.p2 = p2; su.ckks = Some(enc);
+    } else {
+        let enc = lib(|| BatchEncoder::new(ctx.clone())).map_err(|p| p.0)?;
+        su.v1 = match rng.below(5) { 0 => vec![0; n], 1 => vec![t - 1; n], _ => (0..n).map(|_| rng.below(t)).collect() };
+        let v1 = su.v1.clone();
+        let p1 = lib(|| enc.encode_new(&v1)).map_err(|p| p.0)?;
+        let back = lib(|| enc.decode_new(&p1)).map_err(|p| p.0)?;
+        if back != su.v1 { return Err("BatchEncoder decode(encode(v)) != v (out of this property's precondition)".into()); }
+        su.m1 = plain_coeffs(&p1, n);
+        let (_, c2) = crate::props::c01::gen_plain(rng, n, t);
+        su.m2 = c2.clone(); su.m2.resize(n, 0);
+        let mut p2 = Plaintext::new(); p2.resize(c2.len().max(1));
+        for (i, &c) in c2.iter().enumerate() { p2.data_mut()[i] = c; }
+        su.p1 = p1; su.p2 = p2; su.batch = Some(enc);
+    }
+    Ok(su)
+}
+
+fn describe(su: &Setup) -> Value {
+    json!({"params": su.spec.describe(), "parties": su.np, "tape_seed_word0": u64::from_le_bytes(su.tape[0..8].try_into().unwrap()), "entropy_seed": su.entropy, "levels": su.levels})
+}
+
+// ------------------------------------------------------------------------------------------ histories
+fn factorial(k: usize) -> usize { (1..=k).product::<usize>().max(1) }
+fn nth_perm(mut items: Vec<usize>, mut k: usize) -> Vec<usize> {
+    let mut out = vec![];
+    while !items.is_empty() { let f = factorial(items.len() - 1); let i = (k / f) % items.len(); k %= f; out.push(items.remove(i)); }
+    out
+}
+
+/// A history: for every (stage, round, receiver) the order in which the other parties' messages are received.
+/// Enumerated mode (n <= 4): the history number is a pair (a, b) of permutation indices; receiver r in round
+/// 0 uses permutation a + r + stage, in round 1 permutation b + r + stage (mod (n-1)!): over all (a, b) every
+/// receiver sees every order in every round, and for the two-round protocol every pair of orders.
+/// Sampled mode (n >= 5): history 0 is ascending order, the others are independent random permutations.
+struct Hist { np: usize, f: usize, idx: usize, sampled: bool, salt: u64 }
+impl Hist {
+    fn order(&self, stage: u64, round: usize, receiver: usize) -> Vec<usize> {
+        let mut others: Vec<usize> = (0..self.np).filter(|&i| i != receiver).collect();
+        if self.sampled {
+            if self.idx > 0 { Rng::derive(self.salt, self.idx as u64 * 4096 + stage * 8 + round as u64, receiver as u64).shuffle(&mut others); }
+            others
+        } else {
+            let base = if round == 0 { self.idx % self.f } else { self.idx / self.f };
+            nth_perm(others, (base + receiver + stage as usize) % self.f)
+        }
+    }
+}
+
+// ------------------------------------------------------------------------------------------ network helpers
+trait Proto { type Out;
+    fn snd(&self, w: &mut Vec<u8>) -> std::io::Result<()>;
+    fn rcv(&mut self, from: usize, r: &mut &[u8]) -> std::io::Result<()>;
+    fn fin(self) -> Self::Out;
+}
+macro_rules! proto_impl { ($t:ident, $out:ty) => {
+    impl<'a> Proto for $t<'a> { type Out = $out;
+        fn snd(&self, w: &mut Vec<u8>) -> std::io::Result<()> { self.send(w) }
+        fn rcv(&mut self, from: usize, r: &mut &[u8]) -> std::io::Result<()> { self.receive(from, r) }
+        fn fin(self) -> $out { self.finish() } }
+} }
+proto_impl!(PublicKeyGenerationProtocol, PublicKey);
+proto_impl!(SecretKeyRevelationProtocol, SecretKey);
+proto_impl!(KeySwitchProtocol, Ciphertext);
+proto_impl!(DecryptionProtocol, Plaintext);
+proto_impl!(PublicKeySwitchProtocol, Ciphertext);
+
+/// (phase, party, message)
+type NetFail = (String, usize, String);
+
+fn collect_msgs<T>(protos: &[T], senders: &[usize], snd: &dyn Fn(&T, &mut Vec<u8>) -> std::io::Result<()>) -> Result<Vec<Vec<u8>>, NetFail> {
+    let mut msgs = vec![vec![]; protos.len()];
+    for &i in senders {
+        let mut buf = vec![];
+        match lib(|| snd(&protos[i], &mut buf)) {
+            Ok(Ok(())) => {}
+            Ok(Err(e)) => return Err(("send:io_error".into(), i, e.to_string())),
+            Err(p) => return Err(("send:panic".into(), i, p.0)),
+        }
+        if buf.is_empty() { return Err(("send:empty_message".into(), i, "send wrote nothing".into())); }
+        msgs[i] = buf;
+    }
+    Ok(msgs)
+}
+
+/// hand to every receiver the messages of `order(receiver)` (minus `skip`), in that order
+fn deliver<T>(protos: &mut [T], msgs: &[Vec<u8>], receivers: &[usize], order: &dyn Fn(usize) -> Vec<usize>, skip: &dyn Fn(usize, usize) -> bool,
+    rcv: &dyn Fn(&mut T, usize, &mut &[u8]) -> std::io::Result<()>) -> Result<u64, NetFail> {
+    let mut trailing = 0u64;
+    for &r in receivers {
+        for s in order(r) {
+            if skip(r, s) { continue; }
+            let mut rd: &[u8] = &msgs[s];
+            let pr = &mut protos[r];
+            match lib(|| rcv(pr, s, &mut rd)) {
+                Ok(Ok(())) => {}
+                Ok(Err(e)) => return Err(("receive:io_error".into(), r, format!("from {}: {}", s, e))),
+                Err(p) => return Err(("receive:panic".into(), r, format!("from {}: {}", s, p.0))),
+            }
+            if !rd.is_empty() { trailing += 1; }
+        }
+    }
+    Ok(trailing)
+}
+
+// ------------------------------------------------------------------------------------------ fingerprints (full contents)
+fn fp_ct(c: &Ciphertext) -> Vec<u64> {
+    let mut v = vec![c.size() as u64, c.is_ntt_form() as u64, c.scale().to_bits(), c.correction_factor()];
+    v.extend_from_slice(&c.parms_id()[..]); v.extend_from_slice(c.data()); v
+}
+fn fp_pt(p: &Plaintext) -> Vec<u64> {
+    let mut v = vec![p.coeff_count() as u64, p.scale().to_bits()];
+    v.extend_from_slice(&p.parms_id()[..]); v.extend_from_slice(p.data()); v
+}
+fn fp_sk(s: &SecretKey) -> Vec<u64> { let mut v = s.parms_id()[..].to_vec(); v.extend_from_slice(s.data()); v }
+fn fp_rlk(r: &RelinKeys) -> Vec<u64> {
+    let ks = r.as_kswitch_keys();
+    let mut v = ks.parms_id()[..].to_vec(); v.push(ks.data().len() as u64);
+    for row in ks.data() { v.push(row.len() as u64); for k in row { v.extend(fp_ct(k.as_ciphertext())); } }
+    v
+}
+fn first_diff(a: &[u64], b: &[u64]) -> String {
+    if a.len() != b.len() { return format!("lengths {} vs {}", a.len(), b.len()); }
+    match a.iter().zip(b).position(|(x, y)| x != y) { Some(i) => format!("first differing word {} of {}: {} vs {}", i, a.len(), a[i], b[i]), None => "equal".into() }
+}
+
+// ------------------------------------------------------------------------------------------ reference arithmetic
+fn inv_ntt(tables: &[NTTTables], i: usize, q: u64, v: &[u64]) -> Vec<u64> {
+    let n = v.len();
+    let psi = tables[i].root();
+    assert!(refm::is_primitive_2n_root(psi, n, q), "published root is not a primitive 2N-th root");
+    if n <= REF_MAX { return refm::intt_ref(v, psi, q); }
+    let mut a = v.to_vec();
+    heathcliff::verif::polysmallmod::intt(&mut a, &tables[i]);
+    for x in a.iter_mut() { *x %= q; }
+    // cross-check against the definition: a(psi^(2*bitrev(j)+1)) = v[j] at random j (any single wrong
+    // coefficient changes the value at every point)
+    let logn = n.trailing_zeros() as usize;
+    let mut r = Rng::new(q ^ v[0] ^ (n as u64) << 32);
+    for k in 0..8 {
+        let j = if k == 0 { 0 } else { r.usize_below(n) };
+        let x = refm::powmod(psi, (2 * refm::bitrev(j, logn) + 1) as u64, q);
+        assert_eq!(refm::horner(&a, x, q), v[j] % q, "library inverse NTT disagrees with the definition (cross-check)");
+    }
+    a
+}
+
+fn mul_small(a: &[u64], s: &[i64], q: u64) -> Vec<u64> {
+    let n = a.len();
+    let mut acc = vec![0i128; n];
+    for (j, &sj) in s.iter().enumerate() {
+        if sj == 0 { continue; }
+        let sj = sj as i128;
+        for i in 0..n - j { acc[i + j] += a[i] as i128 * sj; }
+        for i in n - j..n { acc[i + j - n] -= a[i] as i128 * sj; }
+    }
+    acc.iter().map(|&x| x.rem_euclid(q as i128) as u64).collect()
+}
+
+/// a secret known in coefficient form (small integers), in transform form per key component, and as a library key
+struct Sec { coef: Vec<i64>, hat: Vec<Vec<u64>>, key: SecretKey }
+
+fn recover_ternary(su: &Setup, sk: &SecretKey) -> Result<Vec<i64>, String> {
+    let kd = su.ctx.key_context_data().unwrap();
+    let tables = kd.small_ntt_tables();
+    let n = su.n;
+    if sk.data().len() != n * su.key_qs.len() { return Err(format!("secret key has {} words", sk.data().len())); }
+    let mut s: Vec<i64> = vec![];
+    for (i, &q) in su.key_qs.iter().enumerate() {
+        let c = inv_ntt(tables, i, q, &sk.data()[i * n..(i + 1) * n]);
+        let si: Result<Vec<i64>, String> = c.iter().map(|&x| if x == 0 { Ok(0) } else if x == 1 { Ok(1) } else if x == q - 1 { Ok(-1) } else { Err(format!("secret coefficient {} mod {} is not ternary", x, q)) }).collect();
+        let si = si?;
+        if i == 0 { s = si; } else if s != si { return Err("secret key components disagree".into()); }
+    }
+    Ok(s)
+}
+
+fn sum_secret(su: &Setup, sks: &[SecretKey]) -> Result<Sec, String> {
+    let n = su.n;
+    let mut coef = vec![0i64; n];
+    let mut hat: Vec<Vec<u64>> = su.key_qs.iter().map(|_| vec![0u64; n]).collect();
+    for sk in sks {
+        let s = recover_ternary(su, sk)?;
+        for j in 0..n { coef[j] += s[j]; }
+        for (i, &q) in su.key_qs.iter().enumerate() { for j in 0..n { hat[i][j] = refm::addmod(hat[i][j], sk.data()[i * n + j], q); } }
+    }
+    let mut key = sks[0].clone();
+    for i in 0..su.key_qs.len() { key.data_mut()[i * n..(i + 1) * n].copy_from_slice(&hat[i]); }
+    Ok(Sec { coef, hat, key })
+}
+
+/// exact centered phase c0 + c1 s (+ c2 s^2) of a ciphertext at its level
+fn phase(su: &Setup, ct: &Ciphertext, sec: &Sec) -> Result<(Vec<BigI>, BigU), String> {
+    let cd = su.ctx.get_context_data(ct.parms_id()).ok_or("ciphertext level unknown to the context")?;
+    let qs: Vec<u64> = cd.parms().coeff_modulus().iter().map(|m| m.value()).collect();
+    let tables = cd.small_ntt_tables();
+    let n = su.n; let size = ct.size();
+    if size < 2 || ct.data().len() != size * qs.len() * n { return Err(format!("ciphertext shape: size {} words {}", size, ct.data().len())); }
+    let mut comps = vec![];
+    for (i, &q) in qs.iter().enumerate() {
+        let v = if ct.is_ntt_form() {
+            let h = &sec.hat[i];
+            let acc: Vec<u64> = (0..n).map(|x| { let mut a = 0u64; for j in (0..size).rev() { a = refm::addmod(refm::mulmod(a, h[x], q), ct.poly_component(j, i)[x] % q, q); } a }).collect();
+            inv_ntt(tables, i, q, &acc)
+        } else {
+            let mut acc: Vec<u64> = ct.poly_component(size - 1, i).iter().map(|&x| x % q).collect();
+            for j in (0..size - 1).rev() { acc = mul_small(&acc, &sec.coef, q); acc = refm::poly_add(&acc, ct.poly_component(j, i), q); }
+            acc
+        };
+        comps.push(v);
+    }
+    let crt = refm::Crt::new(&qs).ok_or("moduli not coprime")?;
+    let ph = (0..n).map(|j| { let r: Vec<u64> = comps.iter().map(|c| c[j]).collect(); crt.compose_centered(&r) }).collect();
+    Ok((ph, crt.big_q))
+}
+
+/// RNS polynomial in transform form -> centered coefficients
+fn lift_ntt_poly(su: &Setup, id: &ParmsID, data: &[u64]) -> Result<(Vec<BigI>, BigU), String> {
+    let cd = su.ctx.get_context_data(id).ok_or("level unknown")?;
+    let qs: Vec<u64> = cd.parms().coeff_modulus().iter().map(|m| m.value()).collect();
+    let n = su.n;
+    if data.len() != n * qs.len() { return Err(format!("polynomial has {} words, level has {} components", data.len(), qs.len())); }
+    let comps: Vec<Vec<u64>> = qs.iter().enumerate().map(|(i, &q)| inv_ntt(cd.small_ntt_tables(), i, q, &data[i * n..(i + 1) * n])).collect();
+    let crt = refm::Crt::new(&qs).ok_or("moduli not coprime")?;
+    Ok(((0..n).map(|j| { let r: Vec<u64> = comps.iter().map(|c| c[j]).collect(); crt.compose_centered(&r) }).collect(), crt.big_q))
+}
+
+fn max_abs(v: &[BigI]) -> BigU { let mut m = BigU::zero(); for x in v { let a = x.abs(); if a > m { m = a; } } m }
+
+#[derive(Clone)]
+enum Expect { Poly(Vec<u64>), Slots(Vec<C64>) }
+
+fn vmax(v: &[C64]) -> f64 { v.iter().map(|x| x.norm()).fold(0.0, f64::max) }
+fn slot_err(got: &[C64], want: &[C64]) -> f64 {
+    if got.len() < want.len() { return f64::INFINITY; }
+    let mut w = 0.0f64; for i in 0..want.len() { let d = (got[i] - want[i]).norm(); if !(d <= w) { w = if d.is_nan() { f64::INFINITY } else { d.max(w) }; } } w
+}
+fn log2q(qs: &[u64]) -> f64 { qs.iter().map(|&q| (q as f64).log2()).sum() }
+fn level_qs(su: &Setup, id: &ParmsID) -> Vec<u64> { su.ctx.get_context_data(id).map(|c| c.parms().coeff_modulus().iter().map(|m| m.value()).collect()).unwrap_or_default() }
+
+/// noise precondition for exact decryption: t * E * 8 < Q_level
+fn exact_pre(su: &Setup, id: &ParmsID, e: f64) -> bool { (su.t as f64).log2() + e.log2() + 3.0 < log2q(&level_qs(su, id)) }
+/// CKKS slot tolerance for coefficient noise E at scale `scale`
+fn ckks_tol(su: &Setup, id: &ParmsID, e: f64, scale: f64, vm: f64) -> f64 {
+    let k = level_qs(su, id).len();
+    (su.n as f64) * (e + 1.0) / scale + ckks_fp_tolerance(su.n, k, vm, scale)
+}
+
+/// decide an output ciphertext: exact phase under `sec` (reference) and the library's ordinary Decryptor under sec.key
+fn check_ct(cx: &Cx, rep: &mut Report, su: &Setup, sec: &Sec, ct: &Ciphertext, want: &Expect, op: &str, e: f64) {
+    let sname = su.spec.scheme_name();
+    let cls = format!("scheme={}", sname);
+    if ct.size() != 2 && !op.starts_with("relin") { viol(cx, rep, op, &cls, "shape", format!("output ciphertext has size {}", ct.size())); return; }
+    let t = su.t;
+    match want {
+        Expect::Poly(w) => {
+            if !exact_pre(su, ct.parms_id(), e) { rep.out_of_precondition += 1; return; }
+            match phase(su, ct, sec) {
+                Err(m) => viol(cx, rep, op, &cls, "shape", m),
+                Ok((ph, q)) => {
+                    let (msg, margin): (Vec<u64>, f64) = if su.spec.scheme == SchemeType::BFV {
+                        let mut norm = BigU::zero();
+                        let m = ph.iter().map(|x| { let tx = x.mul_u64(t); let y = crate::big::centered(&tx.modp(&q), &q).abs(); if y > norm { norm = y; } tx.div_round_half_up(&q).mod_u64(t) }).collect();
+                        (m, log2_big(&q) - 1.0 - log2_big(&norm).max(0.0))
+                    } else {
+                        let finv = refm::invmod(ct.correction_factor() % t, t).unwrap_or(0);
+                        let norm = max_abs(&ph);
+                        (ph.iter().map(|x| refm::mulmod(x.mod_u64(t), finv, t)).collect(), log2_big(&q) - 1.0 - log2_big(&norm).max(0.0))
+                    };
+                    rep.min(&format!("noise_margin_bits|{}|{}", sname, op), margin);
+                    if &msg != w {
+                        let k = msg.iter().zip(w).position(|(a, b)| a != b).unwrap_or(0);
+                        viol(cx, rep, op, &cls, "value", format!("reference decryption under the expected secret differs from the plaintext: coefficient {} is {} expected {} (noise margin {:.1} bits)", k, msg[k], w[k], margin));
+                    }
+                }
+            }
+            match lib(|| Decryptor::new(su.ctx.clone(), sec.key.clone()).decrypt_new(ct)) {
+                Err(p) => viol(cx, rep, op, &format!("{}-Decryptor", cls), "panic", format!("ordinary Decryptor panicked on the output: {}", p.0)),
+                Ok(d) => { let got = plain_coeffs(&d, su.n); if &got != w {
+                    let k = got.iter().zip(w).position(|(a, b)| a != b).unwrap_or(0);
+                    viol(cx, rep, op, &format!("{}-Decryptor", cls), "value", format!("ordinary Decryptor under the expected secret: coefficient {} is {} expected {}", k, got[k], w[k])); } }
+            }
+        }
+        Expect::Slots(w) => {
+            let tol = ckks_tol(su, ct.parms_id(), e, ct.scale(), vmax(w));
+            match phase(su, ct, sec) {
+                Err(m) => viol(cx, rep, op, &cls, "shape", m),
+                Ok((ph, _)) => {
+                    let coeffs: Vec<f64> = ph.iter().map(|x| x.to_f64() / ct.scale()).collect();
+                    let err = slot_err(&embed_decode(&coeffs), w);
+                    rep.max(&format!("ckks_error_over_tolerance|{}", op), err / tol);
+                    if !(err <= tol) { viol(cx, rep, op, &cls, "value", format!("reference decryption under the expected secret differs from the plaintext by {:e} > tolerance {:e}", err, tol)); }
+                }
+            }
+            let enc = su.ckks.as_ref().unwrap();
+            match lib(|| enc.decode_new(&Decryptor::new(su.ctx.clone(), sec.key.clone()).decrypt_new(ct))) {
+                Err(p) => viol(cx, rep, op, &format!("{}-Decryptor", cls), "panic", format!("ordinary Decryptor/decoder panicked on the output: {}", p.0)),
+                Ok(d) => { let err = slot_err(&d, w); if !(err <= tol) { viol(cx, rep, op, &format!("{}-Decryptor", cls), "value", format!("ordinary Decryptor under the expected secret: slots differ by {:e} > tolerance {:e}", err, tol)); } }
+            }
+        }
+    }
+}
+
+/// decide a plaintext returned by collective decryption of `ct`
+fn check_plain(cx: &Cx, rep: &mut Report, su: &Setup, pt: &Plaintext, ct: &Ciphertext, want: &Expect, label: &str, e: f64) {
+    let sname = su.spec.scheme_name();
+    let cls = format!("scheme={}", sname);
+    // one signature per protocol: the kind of input ciphertext (fresh / level_down / product) goes into the detail
+    let op = label.split(':').next().unwrap_or(label);
+    let input = label.split(':').nth(1).unwrap_or("");
+    match want {
+        Expect::Poly(w) => {
+            if !exact_pre(su, ct.parms_id(), e) { rep.out_of_precondition += 1; return; }
+            if pt.is_ntt_form() || pt.coeff_count() > su.n || pt.coeff_count() == 0 { viol(cx, rep, op, &cls, "shape", format!("plaintext metadata: ntt={} coeff_count={}", pt.is_ntt_form(), pt.coeff_count())); return; }
+            let got = plain_coeffs(pt, su.n);
+            if &got != w {
+                let k = got.iter().zip(w).position(|(a, b)| a != b).unwrap_or(0);
+                let nd = got.iter().zip(w).filter(|(a, b)| a != b).count();
+                viol(cx, rep, op, &cls, "value", format!("collective decryption of a {} ciphertext returned a different plaintext: {} of {} coefficients differ, first at {}: {} expected {} (ciphertext ntt_form={}, correction factor {})", input, nd, su.n, k, got[k], w[k], ct.is_ntt_form(), ct.correction_factor()));
+            }
+        }
+        Expect::Slots(w) => {
+            let tol = ckks_tol(su, ct.parms_id(), e, ct.scale(), vmax(w));
+            if pt.parms_id() != ct.parms_id() || pt.scale().to_bits() != ct.scale().to_bits() { viol(cx, rep, op, &cls, "shape", format!("plaintext level/scale differ from the ciphertext's (scale {} vs {})", pt.scale(), ct.scale())); return; }
+            match lift_ntt_poly(su, pt.parms_id(), pt.data()) {
+                Err(m) => viol(cx, rep, op, &cls, "shape", m),
+                Ok((c, _)) => {
+                    let coeffs: Vec<f64> = c.iter().map(|x| x.to_f64() / pt.scale()).collect();
+                    let err = slot_err(&embed_decode(&coeffs), w);
+                    rep.max(&format!("ckks_error_over_tolerance|{}", label), err / tol);
+                    if !(err <= tol) { viol(cx, rep, op, &cls, "value", format!("[{}] collectively decrypted slots (reference decoding) differ by {:e} > tolerance {:e}", input, err, tol)); }
+                }
+            }
+            let enc = su.ckks.as_ref().unwrap();
+            match lib(|| enc.decode_new(pt)) {
+                Err(p) => viol(cx, rep, op, &format!("{}-decoder", cls), "panic", format!("CKKSEncoder::decode panicked on the collectively decrypted plaintext: {}", p.0)),
+                Ok(d) => { let err = slot_err(&d, w); if !(err <= tol) { viol(cx, rep, op, &format!("{}-decoder", cls), "value", format!("collectively decrypted slots (library decoding) differ by {:e} > tolerance {:e}", err, tol)); } }
+            }
+        }
+    }
+}
+
+/// pk0 + pk1 s = -e (BGV: -t e) with |e| <= 21 n, on every key component
+fn check_pk(cx: &Cx, rep: &mut Report, su: &Setup, sec: &Sec, pk: &PublicKey) -> Option<f64> {
+    let sname = su.spec.scheme_name(); let cls = format!("scheme={}", sname);
+    let kd = su.ctx.key_context_data().unwrap();
+    let c = pk.as_ciphertext();
+    if c.size() != 2 || !c.is_ntt_form() || c.parms_id() != kd.parms_id() || pk.parms_id() != kd.parms_id() || c.data().len() != 2 * su.n * su.key_qs.len() {
+        viol(cx, rep, "pkgen", &cls, "shape", format!("collective public key: size {} ntt {} words {}", c.size(), c.is_ntt_form(), c.data().len())); return None;
+    }
+    let (ph, _) = match phase(su, c, sec) { Ok(x) => x, Err(m) => { viol(cx, rep, "pkgen", &cls, "shape", m); return None; } };
+    noise_verdict(cx, rep, su, "pkgen", &cls, &ph, ERR * su.np as f64, "pk0 + pk1*s")
+}
+
+/// Per-party view of public-key generation: party i's message is p0_i = -(a s_i + e_i) with its own secret s_i and the common a
+/// (= pk1); the e_i so defined must each be a fresh error (|e_i| <= 21, BGV t*e_i) and -- being private randomness, not common-tape
+/// randomness -- must not coincide between parties (two honest samples of N >= 16 coefficients coincide with probability < 1e-15).
+fn check_pk_messages(cx: &Cx, rep: &mut Report, su: &Setup, sks: &[SecretKey], pk: &PublicKey, msgs: &[Vec<u8>]) {
+    if msgs.len() != su.np { return; }
+    let cls = format!("scheme={}", su.spec.scheme_name());
+    let kd = su.ctx.key_context_data().unwrap();
+    let n = su.n; let q = su.key_qs[0];
+    let a = pk.as_ciphertext().poly_component(1, 0);
+    let mut es: Vec<Vec<i64>> = vec![];
+    for (i, m) in msgs.iter().enumerate() {
+        let mut rd: &[u8] = m;
+        let Ok(Ok(p0)) = lib(|| PolynomialSerializer::deserialize_polynomial(&su.ctx, &mut rd)) else { return; };
+        if p0.len() != n * su.key_qs.len() { return; }
+        let acc: Vec<u64> = (0..n).map(|x| refm::addmod(p0[x] % q, refm::mulmod(a[x], sks[i].data()[x], q), q)).collect();
+        let c = inv_ntt(kd.small_ntt_tables(), 0, q, &acc);
+        let e: Vec<i64> = c.iter().map(|&x| if x > q / 2 { -((q - x) as i64) } else { x as i64 }).collect();
+        let lim = if su.spec.scheme == SchemeType::BGV { ERR as i64 * su.t as i64 } else { ERR as i64 };
+        if e.iter().any(|x| x.abs() > lim) || (su.spec.scheme == SchemeType::BGV && e.iter().any(|x| x % su.t as i64 != 0)) {
+            viol(cx, rep, "pkgen", &format!("{}:per_party_message", cls), "value", format!("party {}'s message p0_i + a*s_i is not a fresh error polynomial (max |coefficient| {})", i, e.iter().map(|x| x.abs()).max().unwrap_or(0)));
+            return;
+        }
+        es.push(e);
+    }
+    let shared = (1..es.len()).any(|i| (0..i).any(|j| es[i] == es[j]));
+    rep.count("pkgen_private_noise", if shared { "identical between two parties" } else { "per-party errors <= 21 and pairwise distinct" });
+    if shared { viol(cx, rep, "pkgen", &format!("{}:private_noise_identical", cls), "value", "two parties' error polynomials e_i = -(p0_i + a*s_i) are identical: private randomness is being drawn from the common tape".into()); }
+}
+
+/// |v| <= bound (BGV: v = t * v', |v'| <= bound); returns the observed norm
+fn noise_verdict(cx: &Cx, rep: &mut Report, su: &Setup, op: &str, cls: &str, v: &[BigI], bound: f64, what: &str) -> Option<f64> {
+    let (norm, ok_div) = if su.spec.scheme == SchemeType::BGV {
+        let div = v.iter().all(|x| x.mod_u64(su.t) == 0);
+        (max_abs(v).to_f64() / su.t as f64, div)
+    } else { (max_abs(v).to_f64(), true) };
+    rep.max(&format!("{}_noise_over_bound", op.split(':').next().unwrap_or(op)), norm / bound);
+    if !ok_div { viol(cx, rep, op, cls, "value", format!("{} is not a multiple of t under the sum of the parties' secrets (BGV noise must be t*e)", what)); return None; }
+    if !(norm <= bound) { viol(cx, rep, op, cls, "value", format!("{} under the sum of the parties' secrets has norm {:e} > bound {}", what, norm, bound)); return None; }
+    Some(norm)
+}
+
+/// every relinearisation-key component: c0 + c1 s - [i=j] (P mod q_j) s^2 = noise
+fn check_rlk(cx: &Cx, rep: &mut Report, su: &Setup, sec: &Sec, rlk: &RelinKeys) -> Option<f64> {
+    let sname = su.spec.scheme_name(); let cls = format!("scheme={}", sname);
+    let kd = su.ctx.key_context_data().unwrap();
+    let tables = kd.small_ntt_tables();
+    let k = su.key_qs.len(); let n = su.n;
+    let ks = rlk.as_kswitch_keys();
+    if ks.data().len() != 1 || ks.data()[0].len() != k - 1 || ks.parms_id() != kd.parms_id() {
+        viol(cx, rep, "relin", &cls, "shape", format!("relinearisation key has {} rows, first row {} components, expected 1 x {}", ks.data().len(), ks.data().first().map(|r| r.len()).unwrap_or(0), k - 1)); return None;
+    }
+    let p_special = su.key_qs[k - 1];
+    let np = su.np as f64;
+    let bound = 2.0 * n as f64 * np * np * ERR + 2.0 * np * ERR;
+    let crt = refm::Crt::new(&su.key_qs).unwrap();
+    let mut worst = 0.0f64;
+    for j in 0..k - 1 {
+        let c = ks.data()[0][j].as_ciphertext();
+        if c.size() != 2 || !c.is_ntt_form() || c.data().len() != 2 * n * k || c.parms_id() != kd.parms_id() { viol(cx, rep, "relin", &cls, "shape", format!("component {}: size {} ntt {} words {}", j, c.size(), c.is_ntt_form(), c.data().len())); return None; }
+        let mut comps = vec![];
+        for (i, &q) in su.key_qs.iter().enumerate() {
+            let h = &sec.hat[i];
+            let w = if i == j { p_special % q } else { 0 };
+            let acc: Vec<u64> = (0..n).map(|x| {
+                let a = refm::addmod(c.poly_component(0, i)[x] % q, refm::mulmod(c.poly_component(1, i)[x], h[x], q), q);
+                refm::submod(a, refm::mulmod(w, refm::mulmod(h[x], h[x], q), q), q)
+            }).collect();
+            comps.push(inv_ntt(tables, i, q, &acc));
+        }
+        let v: Vec<BigI> = (0..n).map(|x| { let r: Vec<u64> = comps.iter().map(|c| c[x]).collect(); crt.compose_centered(&r) }).collect();
+        match noise_verdict(cx, rep, su, "relin", &cls, &v, bound, &format!("component {}: c0 + c1*s - P*s^2|_{}", j, j)) { Some(x) => worst = worst.max(x), None => return None }
+    }
+    Some(worst)
+}
+
+// ------------------------------------------------------------------------------------------ CKKS share encoder / sampler (harness side)
+struct CkksShareEnc { enc: CKKSEncoder, id: ParmsID, scale: f64 }
+impl ShareEncoder for CkksShareEnc {
+    type Share = Vec<C64>;
+    fn encode(&self, share: &Vec<C64>) -> Plaintext { self.enc.encode_c64_array_new(share, Some(self.id), self.scale) }
+    fn decode(&self, plaintext: &Plaintext) -> Vec<C64> { self.enc.decode_new(plaintext) }
+}
+struct CkksShareSampler { slots: usize }
+impl ShareSampler for CkksShareSampler {
+    type Share = Vec<C64>;
+    fn sample(&self, prng: &mut BlakeRNG) -> Vec<C64> {
+        let mut u = || (prng.next_u64() >> 11) as f64 / (1u64 << 53) as f64 * 2.0 - 1.0;
+        (0..self.slots).map(|_| { let re = u(); let im = u(); C64::new(re, im) }).collect()
+    }
+}
+fn fp_c64(v: &Vec<C64>) -> Vec<u64> { v.iter().flat_map(|z| [z.re.to_bits(), z.im.to_bits()]).collect() }
+
+// ------------------------------------------------------------------------------------------ one run
+#[derive(Default)]
+struct RunOut { stages: Vec<(String, Vec<Option<Vec<u64>>>)>, draws: u64, summary: Vec<(String, Value)> }
+
+fn upfront(cx: &Cx, rep: &mut Report, su: &Setup, label: &str, msg: &str, check: bool) {
+    if !check { return; }
+    if su.spec.scheme == SchemeType::BFV {
+        viol(cx, rep, label, "scheme=BFV:construct", "panic", format!("constructing the protocol panicked: {}", msg));
+    } else {
+        rep.count("accepted", &format!("{}|{}|refused_up_front", label, su.spec.scheme_name()));
+        rep.note(&format!("not accepted: {} in {}: {}", label, su.spec.scheme_name(), short(msg)));
+    }
+}
+
+fn net_fail(cx: &Cx, rep: &mut Report, su: &Setup, label: &str, f: &NetFail, check: bool) {
+    if !check { return; }
+    let kind = f.0.split(':').nth(1).unwrap_or("panic");
+    viol(cx, rep, label, &format!("scheme={}:{}", su.spec.scheme_name(), f.0.split(':').next().unwrap_or("")), kind, format!("party {}: {}", f.1, f.2));
+}
+
+/// within-run agreement: every party's output equals party 0's
+fn agree(cx: &Cx, rep: &mut Report, su: &Setup, label: &str, fps: &[Option<Vec<u64>>]) {
+    let Some(Some(base)) = fps.first() else { return; };
+    let bad: Vec<String> = fps.iter().enumerate().skip(1).filter_map(|(i, f)| match f { Some(f) if f == base => None, Some(f) => Some(format!("party {}: {}", i, first_diff(base, f))), None => None }).collect();
+    if !bad.is_empty() {
+        viol(cx, rep, label, &format!("scheme={}", su.spec.scheme_name()), "disagree", format!("outputs of finish differ between parties (against party 0): {}", bad.join("; ")));
+    }
+}
+
+/// single-round broadcast protocol: all send, all receive in history order, all finish
+fn exchange<T: Proto>(cx: &Cx, rep: &mut Report, su: &Setup, label: &str, mut protos: Vec<T>, hist: &Hist, stage: u64, check: bool, keep: &mut Vec<Vec<u8>>) -> Vec<Option<T::Out>> {
+    let np = protos.len();
+    let all: Vec<usize> = (0..np).collect();
+    let none = |np: usize| -> Vec<Option<T::Out>> { (0..np).map(|_| None).collect() };
+    let msgs = match collect_msgs(&protos, &all, &|p: &T, w: &mut Vec<u8>| p.snd(w)) { Ok(m) => m, Err(f) => { net_fail(cx, rep, su, label, &f, check); return none(np); } };
+    match deliver(&mut protos, &msgs, &all, &|r| hist.order(stage, 0, r), &|_, _| false, &|p: &mut T, s: usize, r: &mut &[u8]| p.rcv(s, r)) {
+        Ok(tr) => { if tr > 0 && check { rep.count("messages", &format!("{}|trailing_bytes_after_receive", label)); } }
+        Err(f) => { net_fail(cx, rep, su, label, &f, check); return none(np); }
+    }
+    if check { rep.count_n("messages", &format!("{}|bytes_per_message", label), msgs[0].len() as u64); *keep = msgs.clone(); }
+    protos.into_iter().enumerate().map(|(i, p)| match lib(|| p.fin()) {
+        Ok(o) => Some(o),
+        Err(e) => { if check { viol(cx, rep, label, &format!("scheme={}:finish", su.spec.scheme_name()), "panic", format!("party {} finish panicked with all messages received: {}", i, e.0)); } None }
+    }).collect()
+}
+
+fn run_once(cx: &Cx, rep: &mut Report, su: &Setup, hist: &Hist, check: bool) -> RunOut {
+    heathcliff::verif::set_thread_entropy(Some(su.entropy));
+    let mut out = RunOut::default();
+    let scheme = su.spec.scheme; let sname = su.spec.scheme_name();
+    let np = su.np; let n = su.n; let npf = np as f64; let nf = n as f64;
+    let cls = format!("scheme={}", sname);
+    let ctx = su.ctx.clone();
+
+    let made: Result<Vec<Participant>, Panicked> = lib(|| (0..np).map(|i| Participant::new(np, i, ctx.clone(), BlakeRNG::from_seed(PRNGSeed(su.tape)))).collect());
+    let mut parties = match made { Ok(p) => p, Err(e) => { if check { viol(cx, rep, "Participant::new", &cls, "panic", e.0); } return out; } };
+    let sks: Vec<SecretKey> = parties.iter().map(|p| p.secret_key().clone()).collect();
+    let sec: Option<Sec> = if check { match sum_secret(su, &sks) { Ok(s) => Some(s), Err(e) => { viol(cx, rep, "keygen", &cls, "value", format!("a party's secret key is malformed: {}", e)); None } } } else { None };
+
+    let mut kept: Vec<Vec<u8>> = vec![];
+    macro_rules! record { ($label:expr, $outs:expr, $fp:expr, $agree:expr) => {{
+        let fps: Vec<Option<Vec<u64>>> = $outs.iter().map(|o| o.as_ref().map($fp)).collect();
+        if check {
+            rep.count("accepted", &format!("{}|{}|ran", $label, sname));
+            if $agree { agree(cx, rep, su, $label, &fps); }
+        }
+        rep.count("protocol_scheme_parties_histories", &format!("{}|{}|parties={}", $label, sname, np));
+        rep.eval(Some(&format!("{}|{}|np{}|N{}|{}", $label, sname, np, n, su.spec.family)));
+        out.stages.push(($label.to_string(), fps));
+    }}; }
+    macro_rules! stage { ($label:expr, $id:expr, $make:expr, $fp:expr, $agree:expr) => {{
+        match lib(|| $make) {
+            Err(p) => { upfront(cx, rep, su, $label, &p.0, check); out.stages.push(($label.to_string(), vec![])); (0..np).map(|_| None).collect::<Vec<_>>() }
+            Ok(protos) => { let outs = exchange(cx, rep, su, $label, protos, hist, $id, check, &mut kept); record!($label, outs, $fp, $agree); outs }
+        }
+    }}; }
+
+    // worst-case coefficient noise figures (phase units; BGV: multiples of t)
+    let b_fresh = ERR * (2.0 * nf * npf + 1.0) + (nf * npf + 1.0) / 2.0 + 1.0;
+    let b_low = b_fresh + (nf * npf + 1.0) / 2.0 + 1.0;
+    let b_rlk = 2.0 * nf * npf * npf * ERR + 2.0 * npf * ERR;
+    let kswitch_noise = su.key_qs.len() as f64 * nf * su.ratio.max(1.0) * b_rlk + nf * npf + 2.0;
+
+    // ---- 1. collective public key
+    let pks = stage!("pkgen", 1, parties.iter_mut().map(|p| p.generate_public_key()).collect::<Vec<_>>(), |k: &PublicKey| fp_ct(k.as_ciphertext()), true);
+    if let (true, Some(sec), Some(pk)) = (check, sec.as_ref(), pks[0].as_ref()) {
+        if let Some(x) = check_pk(cx, rep, su, sec, pk) { out.summary.push(("pk_noise_norm".into(), json!(x))); }
+        check_pk_messages(cx, rep, su, &sks, pk, &kept);
+    }
+    // ---- 2. secret-key revelation
+    let revealed = stage!("sk_reveal", 2, parties.iter().map(|p| p.reveal_secret_key()).collect::<Vec<_>>(), fp_sk, true);
+    if let (true, Some(sec), Some(r)) = (check, sec.as_ref(), revealed[0].as_ref()) {
+        if r.data() != sec.key.data() || r.parms_id() != sec.key.parms_id() { viol(cx, rep, "sk_reveal", &cls, "value", format!("revealed key is not the sum of the parties' secrets: {}", first_diff(sec.key.data(), r.data()))); }
+    }
+    // ---- 3. relinearisation key (two rounds)
+    let mut rlks: Vec<Option<RelinKeys>> = (0..np).map(|_| None).collect();
+    if su.has_ks {
+        let label = "relin";
+        match lib(|| parties.iter_mut().map(|p| p.generate_relin_keys()).collect::<Vec<_>>()) {
+            Err(p) => { upfront(cx, rep, su, label, &p.0, check); out.stages.push((label.into(), vec![])); }
+            Ok(mut protos) => {
+                let all: Vec<usize> = (0..np).collect();
+                let r = (|| -> Result<(), NetFail> {
+                    let m1 = collect_msgs(&protos, &all, &|p: &RelinKeysGenerationProtocol, w: &mut Vec<u8>| p.send_step1(w))?;
+                    deliver(&mut protos, &m1, &all, &|r| hist.order(3, 0, r), &|_, _| false, &|p: &mut RelinKeysGenerationProtocol, s: usize, r: &mut &[u8]| p.receive_step1(s, r))?;
+                    for (i, p) in protos.iter_mut().enumerate() { lib(|| p.step2()).map_err(|e| ("step2:panic".to_string(), i, e.0))?; }
+                    let m2 = collect_msgs(&protos, &all, &|p: &RelinKeysGenerationProtocol, w: &mut Vec<u8>| p.send_step2(w))?;
+                    deliver(&mut protos, &m2, &all, &|r| hist.order(3, 1, r), &|_, _| false, &|p: &mut RelinKeysGenerationProtocol, s: usize, r: &mut &[u8]| p.receive_step2(s, r))?;
+                    if check { rep.count_n("messages", "relin|bytes_per_message(step1+step2)", (m1[0].len() + m2[0].len()) as u64); }
+                    Ok(())
+                })();
+                match r {
+                    Err(f) => { net_fail(cx, rep, su, label, &f, check); out.stages.push((label.into(), vec![None; np])); }
+                    Ok(()) => {
+                        rlks = protos.into_iter().enumerate().map(|(i, p)| match lib(|| p.finish()) { Ok(o) => Some(o), Err(e) => { if check { viol(cx, rep, label, &format!("{}:finish", cls), "panic", format!("party {} finish panicked with all messages received: {}", i, e.0)); } None } }).collect();
+                        record!(label, rlks, fp_rlk, true);
+                    }
+                }
+            }
+        }
+        if let (true, Some(sec), Some(r)) = (check, sec.as_ref(), rlks[0].as_ref()) {
+            if let Some(x) = check_rlk(cx, rep, su, sec, r) { out.summary.push(("rlk_noise_norm".into(), json!(x))); }
+        }
+    } else if check { rep.count("accepted", &format!("relin|{}|no_special_prime(skipped)", sname)); }
+
+    // ---- workload ciphertexts under the collective key (same calls in every history)
+    let Some(pk0) = pks[0].clone() else { out.draws = heathcliff::verif::thread_entropy_draws(); return out; };
+    let ev = Evaluator::new(ctx.clone());
+    let enc = lib(|| { let e = Encryptor::new(ctx.clone()).set_public_key(pk0); (e.encrypt_new(&su.p1), e.encrypt_new(&su.p2)) });
+    let (ct1, ct2) = match enc { Ok(x) => x, Err(e) => { if check { viol(cx, rep, "encrypt_under_collective_pk", &cls, "panic", e.0); } out.draws = heathcliff::verif::thread_entropy_draws(); return out; } };
+    let ct_low: Option<Ciphertext> = if su.levels > 1 { match lib(|| ev.mod_switch_to_next_new(&ct1)) { Ok(c) => Some(c), Err(e) => { if check { rep.note(&format!("mod_switch_to_next panicked (not this property): {}", short(&e.0))); } None } } } else { None };
+    let ct_prod: Option<Ciphertext> = rlks[0].as_ref().and_then(|rlk| match lib(|| ev.relinearize_new(&ev.multiply_new(&ct1, &ct2), rlk)) {
+        Ok(c) => Some(c),
+        Err(e) => { if check { viol(cx, rep, "relin:relinearize", &cls, "panic", format!("relinearize with the collective key panicked: {}", e.0)); } None }
+    });
+    let (exp1, exp_prod, e_prod, pre_prod) = if scheme == SchemeType::CKKS {
+        let zp: Vec<C64> = su.z1.iter().zip(&su.z2).map(|(a, b)| a * b).collect();
+        let m = su.scale * 1.0 + 1.0;
+        let e = nf * (2.0 * m * b_fresh + b_fresh * b_fresh) + kswitch_noise;
+        (Expect::Slots(su.z1.clone()), Expect::Slots(zp), e, true)
+    } else {
+        let prod = refm::negacyclic_mul(&su.m1, &su.m2, su.t);
+        let t = su.t as f64;
+        if scheme == SchemeType::BFV {
+            let e = 4.0 * t * nf * (nf * npf + 2.0) * (b_fresh + 1.0) + kswitch_noise;
+            (Expect::Poly(su.m1.clone()), Expect::Poly(prod), e, true)
+        } else {
+            // |phase| <= N (t (B+1))^2 + t * kswitch ; expressed in multiples of t
+            let e = nf * t * (b_fresh + 1.0) * (b_fresh + 1.0) + kswitch_noise;
+            (Expect::Poly(su.m1.clone()), Expect::Poly(prod), e, true)
+        }
+    };
+    let _ = pre_prod;
+    if let (true, Some(sec)) = (check, sec.as_ref()) {
+        // the workload itself: fresh encryption under the collective key opens under the summed secret
+        check_ct(cx, rep, su, sec, &ct1, &exp1, "pkgen:encrypt", b_fresh);
+        if let Some(c) = &ct_prod { check_ct(cx, rep, su, sec, c, &exp_prod, "relin:product", e_prod); }
+    }
+
+    // ---- 4. collective decryption (fresh, one level down, relinearised product)
+    let mut dec_inputs: Vec<(&str, &Ciphertext, &Expect, f64)> = vec![("decrypt:fresh", &ct1, &exp1, b_fresh + ERR * npf)];
+    if let Some(c) = &ct_low { dec_inputs.push(("decrypt:level_down", c, &exp1, b_low + ERR * npf)); }
+    if let Some(c) = &ct_prod { dec_inputs.push(("decrypt:product", c, &exp_prod, e_prod + ERR * npf)); }
+    for (k, (label, ct, want, e)) in dec_inputs.iter().enumerate() {
+        let outs = stage!(*label, 4 + k as u64, parties.iter().map(|p| p.decrypt(ct)).collect::<Vec<_>>(), fp_pt, true);
+        if let (true, Some(pt)) = (check, outs[0].as_ref()) {
+            check_plain(cx, rep, su, pt, ct, want, label, *e);
+            if k == 0 { out.summary.push(("decrypt:fresh first words".into(), json!(pt.data().iter().take(4).collect::<Vec<_>>()))); }
+        }
+    }
+
+    // ---- 5. secret-key switching to fresh shares s'_i
+    let new_sks: Option<Vec<SecretKey>> = lib(|| (0..np).map(|_| KeyGenerator::new(ctx.clone()).secret_key().clone()).collect()).ok();
+    if let Some(new_sks) = &new_sks {
+        let outs = stage!("key_switch", 8, parties.iter().zip(new_sks.iter()).map(|(p, s)| p.key_switch(&ct1, s)).collect::<Vec<_>>(), fp_ct, true);
+        if let (true, Some(c)) = (check, outs[0].as_ref()) {
+            match sum_secret(su, new_sks) { Ok(tsec) => check_ct(cx, rep, su, &tsec, c, &exp1, "key_switch", b_fresh + ERR * npf), Err(e) => rep.note(&format!("target secret malformed: {}", e)) }
+        }
+    }
+    // ---- 6. public-key switching to an ordinary key pair
+    let target = lib(|| { let kg = KeyGenerator::new(ctx.clone()); let pk = kg.create_public_key(false); (kg.secret_key().clone(), pk) }).ok();
+    if let Some((tsk, tpk)) = &target {
+        let outs = stage!("public_key_switch", 9, parties.iter().map(|p| p.public_key_switch(&ct1, tpk)).collect::<Vec<_>>(), fp_ct, true);
+        if let (true, Some(c)) = (check, outs[0].as_ref()) {
+            match sum_secret(su, std::slice::from_ref(tsk)) { Ok(tsec) => check_ct(cx, rep, su, &tsec, c, &exp1, "public_key_switch", b_fresh + ERR * npf * (2.0 * nf + 1.0)), Err(e) => rep.note(&format!("target secret malformed: {}", e)) }
+        }
+    }
+
+    // ---- 7./8. cipher -> shares -> cipher
+    if scheme == SchemeType::CKKS {
+        let senc = CkksShareEnc { enc: CKKSEncoder::new(ctx.clone()), id: *ct1.parms_id(), scale: ct1.scale() };
+        let samp = CkksShareSampler { slots: n / 2 };
+        let shares = c2s_stage(cx, rep, su, &parties, &ct1, &samp, &senc, hist, check, &fp_c64, &mut out);
+        let have: Option<Vec<Vec<C64>>> = shares.as_ref().and_then(|v| v.iter().cloned().collect());
+        if let (true, Some(sh)) = (check, have.as_ref()) {
+            let sum: Vec<C64> = (0..n / 2).map(|j| sh.iter().map(|s| s[j]).sum()).collect();
+            let tol = ckks_tol(su, ct1.parms_id(), b_fresh + ERR * npf + npf, ct1.scale(), npf + 2.0) + npf * ckks_fp_tolerance(n, su.data_qs.len(), 2.0, ct1.scale());
+            let err = slot_err(&sum, &su.z1);
+            rep.max("ckks_error_over_tolerance|cipher_to_shares", err / tol);
+            if !(err <= tol) { viol(cx, rep, "cipher_to_shares", &cls, "value", format!("sum of shares differs from the plaintext slots by {:e} > tolerance {:e}", err, tol)); }
+        }
+        let use_sh: Vec<Vec<C64>> = have.unwrap_or_else(|| (0..np).map(|i| (0..n / 2).map(|j| C64::new(((i * 7 + j) % 5) as f64 * 0.1, 0.0)).collect()).collect());
+        // party 0 is the designated aggregator of this protocol (as in cipher_to_shares, and as the library's own usage shows):
+            // its output is checked; agreement of the other parties' local outputs is not demanded by the property (recorded as information)
+            let outs = stage!("shares_to_cipher", 11, parties.iter_mut().zip(use_sh.iter()).map(|(p, s)| p.shares_to_cipher(s, &senc)).collect::<Vec<_>>(), fp_ct, false);
+        if let (true, Some(sec), Some(c)) = (check, sec.as_ref(), outs[0].as_ref()) {
+            let sum: Vec<C64> = (0..n / 2).map(|j| use_sh.iter().map(|s| s[j]).sum()).collect();
+            check_ct(cx, rep, su, sec, c, &Expect::Slots(sum), "shares_to_cipher", ERR * npf + npf);
+        }
+    } else {
+        let made = lib(|| (BFVShareSampler::new(ctx.clone()), BFVSimdShareEncoder::new(ctx.clone())));
+        if let Ok((samp, senc)) = made {
+            let t = su.t;
+            let shares = c2s_stage(cx, rep, su, &parties, &ct1, &samp, &senc, hist, check, &|s: &Vec<u64>| s.clone(), &mut out);
+            let have: Option<Vec<Vec<u64>>> = shares.as_ref().and_then(|v| v.iter().cloned().collect());
+            let pre = exact_pre(su, ct1.parms_id(), b_fresh + ERR * npf + npf);
+            if let (true, Some(sh)) = (check, have.as_ref()) {
+                if !pre { rep.out_of_precondition += 1; } else if sh.iter().any(|s| s.len() != n) {
+                    viol(cx, rep, "cipher_to_shares", &cls, "shape", format!("share lengths {:?}", sh.iter().map(|s| s.len()).collect::<Vec<_>>()));
+                } else {
+                    let sum: Vec<u64> = (0..n).map(|j| sh.iter().fold(0u64, |a, s| refm::addmod(a, s[j] % t, t))).collect();
+                    if sum != su.v1 {
+                        let k = sum.iter().zip(&su.v1).position(|(a, b)| a != b).unwrap_or(0);
+                        let nd = sum.iter().zip(&su.v1).filter(|(a, b)| a != b).count();
+                        viol(cx, rep, "cipher_to_shares", &cls, "value", format!("sum of shares mod t differs from the plaintext in {} of {} slots, first slot {}: {} expected {}", nd, n, k, sum[k], su.v1[k]));
+                    }
+                    out.summary.push(("share sums first slots".into(), json!(sum.iter().take(4).collect::<Vec<_>>())));
+                }
+            }
+            let from_c2s = have.as_ref().map(|sh| sh.iter().all(|s| s.len() == n)).unwrap_or(false);
+            let use_sh: Vec<Vec<u64>> = if from_c2s { have.unwrap() } else { (0..np).map(|i| (0..n).map(|j| ((i as u64 + 1) * 7919 + j as u64 * 31) % t).collect()).collect() };
+            // party 0 is the designated aggregator of this protocol (as in cipher_to_shares, and as the library's own usage shows):
+            // its output is checked; agreement of the other parties' local outputs is not demanded by the property (recorded as information)
+            let outs = stage!("shares_to_cipher", 11, parties.iter_mut().zip(use_sh.iter()).map(|(p, s)| p.shares_to_cipher(s, &senc)).collect::<Vec<_>>(), fp_ct, false);
+            if let (true, Some(sec), Some(c)) = (check, sec.as_ref(), outs[0].as_ref()) {
+                let sum: Vec<u64> = (0..n).map(|j| use_sh.iter().fold(0u64, |a, s| refm::addmod(a, s[j] % t, t))).collect();
+                match lib(|| su.batch.as_ref().unwrap().encode_new(&sum)) {
+                    Ok(p) => check_ct(cx, rep, su, sec, c, &Expect::Poly(plain_coeffs(&p, n)), "shares_to_cipher", ERR * npf + npf),
+                    Err(e) => rep.note(&format!("BatchEncoder::encode panicked: {}", short(&e.0))),
+                }
+                // diagnostic for a disagreement: what do the other parties' outputs open to?
+                for (i, o) in outs.iter().enumerate().skip(1) {
+                    if let Some(o) = o { if fp_ct(o) != fp_ct(c) {
+                        if let Ok(d) = lib(|| su.batch.as_ref().unwrap().decode_new(&Decryptor::new(ctx.clone(), sec.key.clone()).decrypt_new(o))) {
+                            let own_twice = (0..n).all(|j| d[j] == refm::submod(refm::addmod(sum[j], use_sh[i][j] % t, t), use_sh[0][j] % t, t));
+                            rep.count("information", "shares_to_cipher: non-aggregating party output differs from party 0"); rep.note(&format!("shares_to_cipher: the output of a party j != 0 opens to {}", if own_twice { "(sum of shares) - share_0 + share_j: its own c0 is counted twice and party 0's never arrives" } else { "something else than (sum of shares) - share_0 + share_j" }));
+                        }
+                    } }
+                }
+            }
+        } else if check { rep.note("share sampler/encoder could not be constructed"); }
+    }
+    out.draws = heathcliff::verif::thread_entropy_draws();
+    out
+}
+
+/// cipher -> shares: parties 1.. send, party 0 receives in history order, everybody finishes
+fn c2s_stage<S, E>(cx: &Cx, rep: &mut Report, su: &Setup, parties: &[Participant], ct: &Ciphertext, samp: &S, senc: &E, hist: &Hist, check: bool,
+    fp: &dyn Fn(&S::Share) -> Vec<u64>, out: &mut RunOut) -> Option<Vec<Option<S::Share>>>
+where S: ShareSampler, E: ShareEncoder<Share = S::Share> {
+    let label = "cipher_to_shares"; let np = su.np; let sname = su.spec.scheme_name();
+    let mut protos = match lib(|| parties.iter().map(|p| p.cipher_to_shares(ct.clone(), samp, senc)).collect::<Vec<_>>()) {
+        Ok(x) => x, Err(p) => { upfront(cx, rep, su, label, &p.0, check); out.stages.push((label.into(), vec![])); return None; }
+    };
+    let senders: Vec<usize> = (1..np).collect();
+    let r = (|| -> Result<(), NetFail> {
+        let m = collect_msgs(&protos, &senders, &|p: &CipherToSharesProtocol<S::Share>, w: &mut Vec<u8>| p.send(w))?;
+        deliver(&mut protos, &m, &[0], &|r| hist.order(10, 0, r), &|_, _| false, &|p: &mut CipherToSharesProtocol<S::Share>, s: usize, r: &mut &[u8]| p.receive(s, r))?;
+        Ok(())
+    })();
+    if let Err(f) = r { net_fail(cx, rep, su, label, &f, check); out.stages.push((label.into(), vec![None; np])); return None; }
+    let outs: Vec<Option<S::Share>> = protos.into_iter().enumerate().map(|(i, p)| match lib(|| p.finish(senc)) {
+        Ok(o) => Some(o),
+        Err(e) => { if check { viol(cx, rep, label, &format!("scheme={}:finish", sname), "panic", format!("party {} finish panicked with all messages received: {}", i, e.0)); } None }
+    }).collect();
+    let fps: Vec<Option<Vec<u64>>> = outs.iter().map(|o| o.as_ref().map(|s| fp(s))).collect();
+    if check { rep.count("accepted", &format!("{}|{}|ran", label, sname)); }
+    rep.count("protocol_scheme_parties_histories", &format!("{}|{}|parties={}", label, sname, np));
+    rep.eval(Some(&format!("{}|{}|np{}|N{}|{}", label, sname, np, su.n, su.spec.family)));
+    out.stages.push((label.to_string(), fps));
+    Some(outs)
+}
+
+// ------------------------------------------------------------------------------------------ protocol case: all histories
+fn combo(case: u64, cfg: &Cfg, big: bool) -> (SchemeType, usize, usize, usize, bool) {
+    let schemes = [SchemeType::BFV, SchemeType::BGV, SchemeType::CKKS];
+    let scheme = schemes[(case % 3) as usize];
+    let maxp = cfg.pick(4u64, 6u64);
+    let span = maxp - 1;
+    let np = 2 + ((case / 3) % span) as usize;
+    let c = case / (3 * span);
+    let (n, c) = if big { let ns = [256usize, 1024, 4096]; (ns[(c % 3) as usize], c / 3) } else { ([16usize, 64][(c % 2) as usize], c / 2) };
+    let kd = 2 + (c % 3) as usize;
+    let flat = (c / 3) % 4 == 3;
+    (scheme, n, kd, np, flat)
+}
+
+fn protocol_case(cfg: &Cfg, grp: &str, case: u64, rng: &mut Rng, rep: &mut Report, big: bool) {
+    let (scheme, n, kd, np, flat) = combo(case, cfg, big);
+    let su = match make_setup(rng, scheme, n, kd, np, flat) { Ok(s) => s, Err(e) => { rep.count("generator", "rejected"); rep.note(&format!("setup rejected: {}", short(&e))); return; } };
+    rep.count("generator", "context_ok");
+    rep.count("params", &format!("{}|N={}|data_primes={}|special_prime={}", su.spec.scheme_name(), n, su.data_qs.len(), !flat));
+    rep.count("scheme_parties_degree", &format!("{}|parties={}|N={}", su.spec.scheme_name(), np, n));
+    let f = factorial(np - 1);
+    let enumerated = np <= 4;
+    let nh = if enumerated { if n <= REF_MAX { f * f } else { f } } else if n <= REF_MAX { 8 } else { 4 };
+    let salt = rng.u64();
+    let cx = Cx { cfg, grp, case, info: describe(&su) };
+    let mut base: Option<RunOut> = None;
+    for h in 0..nh {
+        // reduced enumeration (large N): both rounds use the same index
+        let idx = if enumerated && n > REF_MAX { h * f + h } else { h };
+        let hist = Hist { np, f, idx, sampled: !enumerated, salt };
+        let o = run_once(&cx, rep, &su, &hist, h == 0);
+        rep.count("histories", &format!("parties={}|{}", np, if enumerated { "enumerated" } else { "sampled" }));
+        match &base {
+            None => { base = Some(o); }
+            Some(b) => {
+                assert_eq!(b.draws, o.draws, "harness: repetitions drew different amounts of library entropy ({} vs {})", b.draws, o.draws);
+                if b.stages.len() != o.stages.len() { viol(&cx, rep, "run", &format!("scheme={}", su.spec.scheme_name()), "history", format!("history {} completed {} stages, history 0 {}", idx, o.stages.len(), b.stages.len())); continue; }
+                for ((l0, f0), (_, f1)) in b.stages.iter().zip(&o.stages) {
+                    let mut bad = vec![];
+                    if f0.len() != f1.len() { bad.push(format!("{} vs {} outputs", f0.len(), f1.len())); }
+                    for (i, (a, b)) in f0.iter().zip(f1).enumerate() {
+                        match (a, b) { (Some(a), Some(b)) => if a != b { bad.push(format!("party {}: {}", i, first_diff(a, b))); }, (None, None) => {}, _ => bad.push(format!("party {}: finished in one history only", i)) }
+                    }
+                    if !bad.is_empty() {
+                        let orders: Vec<String> = (0..np).map(|r| format!("r{}:{:?}", r, hist.order(0, 0, r))).collect();
+                        viol(&cx, rep, l0, &format!("scheme={}", su.spec.scheme_name()), "history", format!("same seeds, different delivery order (history {} e.g. {}) gives different outputs: {}", idx, orders.join(" "), bad.join("; ")));
+                    }
+                    rep.count("cross_history_comparisons", l0);
+                }
+            }
+        }
+    }
+    if let Some(b) = &base {
+        if case < 9 { rep.sample(json!({"group": grp, "case": case, "setup": cx.info, "histories_run": nh, "stages": b.stages.iter().map(|(l, f)| json!({"stage": l, "parties_finished": f.iter().filter(|x| x.is_some()).count(), "output_words": f.first().and_then(|x| x.as_ref()).map(|x| x.len())})).collect::<Vec<_>>(), "observed": b.summary.iter().map(|(k, v)| json!({k.as_str(): v})).collect::<Vec<_>>()})); }
+    }
+}
+
+// ------------------------------------------------------------------------------------------ refusal case: withheld messages
+fn subsets(others: &[usize], all: bool, rng: &mut Rng) -> Vec<Vec<usize>> {
+    let k = others.len();
+    let total = (1usize << k) - 1;
+    let masks: Vec<usize> = if all { (1..=total).collect() } else { let mut m = vec![total, 1 << rng.usize_below(k)]; for _ in 0..4 { m.push(1 + rng.usize_below(total)); } m.sort(); m.dedup(); m };
+    masks.into_iter().map(|m| (0..k).filter(|b| m >> b & 1 == 1).map(|b| others[b]).collect()).collect()
+}
+
+fn refusal_verdict<T>(cx: &Cx, rep: &mut Report, su: &Setup, label: &str, r: usize, missing: &[usize], res: Result<T, Panicked>) {
+    let others = su.np - 1;
+    let cls = format!("scheme={}:missing={}", su.spec.scheme_name(), if missing.len() == others { "all" } else { "some" });
+    rep.count("refusals", &format!("{}|{}|parties={}|missing={}of{}", label, su.spec.scheme_name(), su.np, missing.len(), others));
+    rep.eval(Some(&format!("refuse|{}|{}|np{}|m{}", label, su.spec.scheme_name(), su.np, missing.len())));
+    match res {
+        Ok(_) => viol(cx, rep, label, &cls, "not_refused", format!("party {} finished although the messages of parties {:?} were never received", r, missing)),
+        Err(p) => { rep.count("refusal_message", if p.0.contains(REFUSE_MSG) { "completeness assertion" } else { "other panic" }); if !p.0.contains(REFUSE_MSG) { rep.note(&format!("refusal by another panic: {} : {}", label, short(&p.0))); } }
+    }
+}
+
+fn refusal_case(cfg: &Cfg, grp: &str, case: u64, rng: &mut Rng, rep: &mut Report) {
+    let (scheme, _, kd, np, flat) = combo(case, cfg, false);
+    let n = if (case / 9) % 3 == 2 { 64 } else { 16 };
+    let su = match make_setup(rng, scheme, n, kd, np, flat) { Ok(s) => s, Err(e) => { rep.count("generator", "rejected"); rep.note(&format!("setup rejected: {}", short(&e))); return; } };
+    let cx = Cx { cfg, grp, case, info: describe(&su) };
+    let ctx = su.ctx.clone();
+    let all_subsets = np <= 4;
+    let Ok(mut parties) = lib(|| (0..np).map(|i| Participant::new(np, i, ctx.clone(), BlakeRNG::from_seed(PRNGSeed(su.tape)))).collect::<Vec<_>>()) else { return; };
+    let all: Vec<usize> = (0..np).collect();
+    let natural = |r: usize| -> Vec<usize> { (0..np).filter(|&i| i != r).collect() };
+
+    // single-round protocols through the Proto trait
+    macro_rules! refuse { ($label:expr, $make:expr) => {{
+        'outer: for r in 0..np {
+            for missing in subsets(&natural(r), all_subsets, rng) {
+                let mut protos = match lib(|| $make) { Ok(p) => p, Err(_) => { rep.count("refusals", &format!("{}|{}|not_accepted", $label, su.spec.scheme_name())); break 'outer; } };
+                let Ok(msgs) = collect_msgs(&protos, &all, &|p, w: &mut Vec<u8>| p.snd(w)) else { break 'outer; };
+                if deliver(&mut protos, &msgs, &[r], &natural, &|_, s| missing.contains(&s), &|p, s: usize, rd: &mut &[u8]| p.rcv(s, rd)).is_err() { break 'outer; }
+                let pr = protos.swap_remove(r);
+                drop(protos);
+                refusal_verdict(&cx, rep, &su, $label, r, &missing, lib(|| pr.fin()));
+            }
+        }
+    }}; }
+
+    refuse!("pkgen", parties.iter_mut().map(|p| p.generate_public_key()).collect::<Vec<_>>());
+    refuse!("sk_reveal", parties.iter().map(|p| p.reveal_secret_key()).collect::<Vec<_>>());
+
+    // a ciphertext under the collective key
+    let pk = {
+        let Ok(mut protos) = lib(|| parties.iter_mut().map(|p| p.generate_public_key()).collect::<Vec<_>>()) else { return; };
+        let Ok(msgs) = collect_msgs(&protos, &all, &|p: &PublicKeyGenerationProtocol, w: &mut Vec<u8>| p.send(w)) else { return; };
+        if deliver(&mut protos, &msgs, &[0], &natural, &|_, _| false, &|p: &mut PublicKeyGenerationProtocol, s: usize, r: &mut &[u8]| p.receive(s, r)).is_err() { return; }
+        let p0 = protos.swap_remove(0);
+        match lib(|| p0.finish()) { Ok(k) => k, Err(_) => return }
+    };
+    let Ok(ct) = lib(|| Encryptor::new(ctx.clone()).set_public_key(pk).encrypt_new(&su.p1)) else { return; };
+
+    refuse!("decrypt", parties.iter().map(|p| p.decrypt(&ct)).collect::<Vec<_>>());
+    if let Ok(new_sks) = lib(|| (0..np).map(|_| KeyGenerator::new(ctx.clone()).secret_key().clone()).collect::<Vec<_>>()) {
+        refuse!("key_switch", parties.iter().zip(new_sks.iter()).map(|(p, s)| p.key_switch(&ct, s)).collect::<Vec<_>>());
+    }
+    if let Ok(tpk) = lib(|| KeyGenerator::new(ctx.clone()).create_public_key(false)) {
+        refuse!("public_key_switch", parties.iter().map(|p| p.public_key_switch(&ct, &tpk)).collect::<Vec<_>>());
+    }
+
+    // relinearisation keys: a message withheld in round 1 (step2 must refuse) or in round 2 (finish must refuse)
+    if su.has_ks {
+        'relin: for round in 0..2 {
+            for r in 0..np {
+                for missing in subsets(&natural(r), all_subsets, rng) {
+                    let Ok(mut protos) = lib(|| parties.iter_mut().map(|p| p.generate_relin_keys()).collect::<Vec<_>>()) else { break 'relin; };
+                    let Ok(m1) = collect_msgs(&protos, &all, &|p: &RelinKeysGenerationProtocol, w: &mut Vec<u8>| p.send_step1(w)) else { break 'relin; };
+                    let rcv1 = |p: &mut RelinKeysGenerationProtocol, s: usize, rd: &mut &[u8]| p.receive_step1(s, rd);
+                    let rcv2 = |p: &mut RelinKeysGenerationProtocol, s: usize, rd: &mut &[u8]| p.receive_step2(s, rd);
+                    if round == 0 {
+                        if deliver(&mut protos, &m1, &[r], &natural, &|_, s| missing.contains(&s), &rcv1).is_err() { break 'relin; }
+                        let pr = &mut protos[r];
+                        refusal_verdict(&cx, rep, &su, "relin:round1", r, &missing, lib(|| pr.step2()));
+                    } else {
+                        if deliver(&mut protos, &m1, &all, &natural, &|_, _| false, &rcv1).is_err() { break 'relin; }
+                        if lib(|| for p in protos.iter_mut() { p.step2(); }).is_err() { break 'relin; }
+                        let Ok(m2) = collect_msgs(&protos, &all, &|p: &RelinKeysGenerationProtocol, w: &mut Vec<u8>| p.send_step2(w)) else { break 'relin; };
+                        if deliver(&mut protos, &m2, &[r], &natural, &|_, s| missing.contains(&s), &rcv2).is_err() { break 'relin; }
+                        let pr = protos.swap_remove(r);
+                        drop(protos);
+                        refusal_verdict(&cx, rep, &su, "relin:round2", r, &missing, lib(|| pr.finish()));
+                    }
+                }
+            }
+        }
+    }
+
+    // shares: cipher -> shares (only party 0 receives) and shares -> cipher
+    if scheme != SchemeType::CKKS {
+        if let Ok((samp, senc)) = lib(|| (BFVShareSampler::new(ctx.clone()), BFVSimdShareEncoder::new(ctx.clone()))) {
+            let senders: Vec<usize> = (1..np).collect();
+            for missing in subsets(&senders, all_subsets, rng) {
+                let Ok(mut protos) = lib(|| parties.iter().map(|p| p.cipher_to_shares(ct.clone(), &samp, &senc)).collect::<Vec<_>>()) else { break; };
+                let Ok(m) = collect_msgs(&protos, &senders, &|p: &CipherToSharesProtocol<Vec<u64>>, w: &mut Vec<u8>| p.send(w)) else { break; };
+                if deliver(&mut protos, &m, &[0], &natural, &|_, s| missing.contains(&s), &|p: &mut CipherToSharesProtocol<Vec<u64>>, s: usize, rd: &mut &[u8]| p.receive(s, rd)).is_err() { break; }
+                let p0 = protos.swap_remove(0);
+                drop(protos);
+                refusal_verdict(&cx, rep, &su, "cipher_to_shares", 0, &missing, lib(|| p0.finish(&senc)));
+            }
+            let sh: Vec<Vec<u64>> = (0..np).map(|i| (0..n).map(|j| ((i as u64 + 1) * 7919 + j as u64 * 31) % su.t).collect()).collect();
+            refuse!("shares_to_cipher", parties.iter_mut().zip(sh.iter()).map(|(p, s)| p.shares_to_cipher(s, &senc)).collect::<Vec<_>>());
+        }
+    } else {
+        let senc = CkksShareEnc { enc: CKKSEncoder::new(ctx.clone()), id: *ct.parms_id(), scale: ct.scale() };
+        let samp = CkksShareSampler { slots: n / 2 };
+        let senders: Vec<usize> = (1..np).collect();
+        for missing in subsets(&senders, all_subsets, rng) {
+            let Ok(mut protos) = lib(|| parties.iter().map(|p| p.cipher_to_shares(ct.clone(), &samp, &senc)).collect::<Vec<_>>()) else { rep.count("refusals", "cipher_to_shares|CKKS|not_accepted"); break; };
+            let Ok(m) = collect_msgs(&protos, &senders, &|p: &CipherToSharesProtocol<Vec<C64>>, w: &mut Vec<u8>| p.send(w)) else { break; };
+            if deliver(&mut protos, &m, &[0], &natural, &|_, s| missing.contains(&s), &|p: &mut CipherToSharesProtocol<Vec<C64>>, s: usize, rd: &mut &[u8]| p.receive(s, rd)).is_err() { break; }
+            let p0 = protos.swap_remove(0);
+            drop(protos);
+            refusal_verdict(&cx, rep, &su, "cipher_to_shares", 0, &missing, lib(|| p0.finish(&senc)));
+        }
+    }
+}
+
+pub fn run(cfg: &Cfg, rep: &mut Report) -> PropMeta {
+    // 3 schemes x (3|5) party counts x 2 degrees x 3 prime counts, every 4th cycle without special prime
+    let cycle = 3 * (cfg.pick(4, 6) - 1) * 2 * 3;
+    run_cases(cfg, "protocols", (cycle * cfg.n(16, 16)) as u64, rep, |i, rng, rep| protocol_case(cfg, "protocols", i, rng, rep, false));
+    if !cfg.quick() {
+        let cycle_big = 3 * 5 * 3 * 3;
+        run_cases(cfg, "protocols_big", cfg.n(1, cycle_big) as u64, rep, |i, rng, rep| protocol_case(cfg, "protocols_big", i, rng, rep, true));
+    }
+    run_cases(cfg, "refusal", (cycle * cfg.n(4, 4)) as u64, rep, |i, rng, rep| refusal_case(cfg, "refusal", i, rng, rep));
+    PropMeta {
+        id: "C18", level: "exploration",
+        rule: "group protocols: every (scheme BFV/BGV/CKKS, parties 2..4 quick / 2..6 thorough, N 16/64 [thorough also 256/1024/4096], 2..4 data primes of 50-59 bits + 60-bit special prime, every 4th cycle without special prime) runs public-key generation, secret-key revelation, two-round relinearisation-key generation, collective decryption of a fresh / a mod-switched / a relinearised product ciphertext, secret-key switching to fresh shares, public-key switching, cipher->shares and shares->cipher; the whole run is repeated with identical tape and entropy seeds under every history. Histories for n<=4: all pairs (a,b) of indices into the (n-1)! orders, receiver r using order a+r+stage in round 1 and b+r+stage in round 2, i.e. every receiver sees every order in every round and the two-round protocol every pair (N>256: a=b); n=5,6: ascending order + 7 (N>256: 3) random histories. group refusal: for every protocol, receiver and non-empty subset (n<=4: all; n=5,6: all-missing, one-missing, 4 random) of withheld messages the receiver's finish/step2 must panic. distinct = distinct (stage, scheme, parties, N, prime family) and (protocol, scheme, parties, #missing) tuples",
+        assumptions: vec![
+            "noise precondition: data modulus >= 2^98 (2-4 primes of 50-59 bits), t <= 2^17, N <= 4096, n <= 6; exact equality (BFV, BGV) is asserted only when t*E*8 < Q_level with the worst-case coefficient noise E: fresh 21(2Nn+1)+(Nn+1)/2+1, +21n per collective step, +21n(2N+1) for public-key switching, BFV product 4tN(Nn+2)(B+1)+k*N*(qmax/P)*(2Nn^2*21+42n)+Nn+2, BGV product N*t*(B+1)^2+same; all generated sets satisfy it (out_of_precondition counts the exceptions)".into(),
+            "CKKS: slot error <= N*(E+1)/scale + double-precision tolerance (he::ckks_fp_tolerance), scale = 2^floor((log2 Q - log2 N - 8)/2) <= 2^50".into(),
+            "the parties' secrets are read by the harness and recovered with the reference inverse transform (N<=256) or the library's inverse NTT cross-checked by Horner evaluation at 8 transform points (N>256); the published roots are checked to be primitive 2N-th roots".into(),
+            "shares are defined relative to the library's BatchEncoder (decode(encode(v)) = v is checked on the workload vector); CKKS shares use a harness-side ShareEncoder built on CKKSEncoder".into(),
+            "cipher_to_shares: only party 0 receives (the library asserts this), so refusal is demanded of party 0 only".into(),
+            "a protocol constructor that panics for BGV/CKKS counts as 'scheme not accepted' (table accepted); for BFV it is a violation".into(),
+            "public-key generation is additionally observed per party (message p0_i + a*s_i must be a fresh error, and the parties' errors pairwise distinct: DESIGN mutant 'private randomness drawn from the common tape'); coincidence of two honest error polynomials has probability < 1e-15".into(),
+            "receivers are independent objects, so delivery interleavings between different receivers cannot be observed; a history fixes the order per (round, receiver)".into(),
+        ],
+        exhaustive: false, floor: cfg.pick(3000, 20000),
+    }
 }
